@@ -17,7 +17,7 @@ use std::ops::{Deref, DerefMut};
 #[derive(Clone, Copy, PartialEq, Eq, Debug)]
 pub enum Ev {
     ReadAcquire, ReadRelease, WriteAcquire, WriteRelease, WouldBlockRead, WouldBlockWrite,
-    MutexLock, MutexUnlock, WouldBlockMutex, CondWait, CondWake, CondNotify,
+    MutexLock, MutexUnlock, WouldBlockMutex, CondWait, CondWake, CondNotify, CondNotifyOne,
 }
 
 static mut EVENT_HOOK: Option<fn(Ev, usize)> = None;
@@ -141,7 +141,13 @@ impl Condvar {
         ev(Ev::CondNotify, self.addr());
         self.waiters.get()
     }
-    pub fn notify_one(&self) -> bool { self.notify_all() > 0 }
+    /// wakes (at most) one waiter: reported separately, a monitor shared by several kinds of waiters needs notify_all
+    pub fn notify_one(&self) -> bool {
+        if unsafe { MUTE_NOTIFY } { return false; }
+        self.epoch.set(self.epoch.get().wrapping_add(1));
+        ev(Ev::CondNotifyOne, self.addr());
+        self.waiters.get() > 0
+    }
     pub fn wait<T: ?Sized>(&self, guard: &mut MutexGuard<'_, T>) {
         let e0 = self.epoch.get();
         self.waiters.set(self.waiters.get() + 1);
